@@ -64,7 +64,7 @@ from __future__ import annotations
 import ast
 from typing import Dict, List, Optional, Tuple
 
-from ..cfg import cfg_of
+from ..cfg import cfg_of, origins
 from ..flow import (
     Src, bind_args, cone, cone_calls, cone_has_param, is_method_bound, is_param_value, is_self_attr,
     returns_of, single_sources, sources,
@@ -489,6 +489,36 @@ def _r27a_loader(chk) -> None:
         for n in walk_local(f):
             if isinstance(n, ast.Call) and isinstance(n.func, ast.Attribute) and n.func.attr in ("reverse", "sort"):
                 chk.fail("R27a", n, "a config stack is re-ordered in place before the merge", detail="stack order kept (in-place)")
+        # the explicit file is never dropped: an EMPTY value may stand in for the EXTRA layer only where no
+        # extra config path was given (an explicitly named file that silently loses to a nested config
+        # breaks the documented precedence for exactly the users who asked for it)
+        for a, classes, nodes in seq:
+            if classes != {"EXTRA"} or not isinstance(a, ast.Name):
+                continue
+            for d in cfg.reaching().defs_at(cfg.stmt_of(merge), a.id):
+                if getattr(d, "kind", "") != "assign" or d.value is None or not _empty_literal(d.value) or d.stmt is None:
+                    continue
+                foreign = []
+                for g in cfg.guards(d.stmt):
+                    if not isinstance(g.stmt, (ast.If, ast.While)):
+                        continue
+                    for nm in {x.id for x in ast.walk(g.stmt.test) if isinstance(x, ast.Name)}:
+                        if nm == "extra_config_path":
+                            continue
+                        os_ = origins(cfg, next(x for x in ast.walk(g.stmt.test) if isinstance(x, ast.Name) and x.id == nm), g.stmt)
+                        only_extra = bool(os_) and all(
+                            o.kind == "expr" and o.expr is not None and {x.id for x in ast.walk(o.expr) if isinstance(x, ast.Name)} - {"extra_config_path", "os", "Path", "str"} == set()
+                            and any(isinstance(x, ast.Name) and x.id == "extra_config_path" for x in ast.walk(o.expr))
+                            for o in os_
+                        )
+                        if not only_extra and nm not in ("os", "Path", "str", "len", "bool"):
+                            foreign.append(nm)
+                chk.require(
+                    not foreign, "R27a", d.stmt,
+                    f"the explicitly given config file is replaced by an empty layer under a condition on {sorted(set(foreign))} (not only on whether a path was given): "
+                    "when that condition holds the file is merged, if at all, at a lower position and a nested config wins over it",
+                    detail="explicit config layer is empty only when no path was given",
+                )
         pos: Dict[str, int] = {}
         for want in ORDER:
             idx = [i for i, (_, cl, _) in enumerate(seq) if cl == {want}]
